@@ -26,7 +26,8 @@ REACH_PROBES = ['after_polluting_case_in_a_suite', 'second_use_of_program_symbol
                 'setup_stdin_for_atc', 'list_symbol_spliced', 'empty_string_argument', 'text_until_eol', 'cd_before_use',
                 'nonzero_exit_fail_in_assert', 'nonzero_exit_hard_error', 'ignore_exit_code', 'spawn_failure',
                 'capture_exit_code_255', 'transformation_on_output', 'policy_after_ignoring_neighbour',
-                'policy_after_strict_neighbour', 'policy_after_ignoring_case']
+                'policy_after_strict_neighbour', 'policy_after_ignoring_case', 'policy_stderr_empty',
+                'policy_stderr_not_utf8']
 
 WORDS = ['a', 'bb', 'c-d', 'x.y', 'k=v', '7', 'A_B', 'p/q', 'm:n', 'u,v']
 SYMDEFS = ["def string STR1 = s1val", "def string STR2 = 'two words'", "def list LST1 = l1 'l 2' l3", "def list LST0 =",
@@ -242,6 +243,10 @@ def sweep_specs():
                 sp.append(('policy', ph, form, 3, 'after_ignoring_case'))
             for form in ('run_ignore', 'file_stdout_from_ignore'):
                 sp.append(('policy', ph, form, 3, 'after_strict_neighbour'))
+            # ... and has nothing to do with what the program wrote on stderr (nothing; bytes that are not UTF-8)
+            for form in ('run', '%', '$', 'file_stdout_from', 'file_stderr_from', 'run_ignore'):
+                sp.append(('policy', ph, form, 3, 'stderr_empty'))
+                sp.append(('policy', ph, form, 3, 'stderr_not_utf8'))
         _SW['s'] = sp
     return _SW['s']
 
@@ -281,6 +286,10 @@ def build_policy(seed, tier, g, ph, form, code, context=None):
         procs['T0'] = {'exit': 0, 'stdout': 'O0\n'}
     elif context == 'after_ignoring_case':
         procs['polluter-fail'] = {'exit': 5, 'stdout': 'O0\n'}
+    elif context == 'stderr_empty':
+        T['stderr'] = ''
+    elif context == 'stderr_not_utf8':
+        T['stderr'] = 'bad \udce9 byte\n'  # (written as the single byte 0xE9)
     return {'format': 1, 'property': PROPERTY, 'engine': 'c10', 'run_seed': seed, 'tier': tier,
             'knobs': {'mem_buff_size': g.choice([1, 8192])}, 'entry': 'cli', 'kind': 'policy', 'phase': ph, 'form': form,
             'ignore': ignore, 'code': code, 'text': text, 'procs': procs, 'sweep': True, 'pre': pre,
@@ -778,6 +787,23 @@ def sample_view(plan, hist):
 
 def normalize(plan):
     """Syntax, symbol definitions and model are all derived from plan['tree']: shrinking edits of the tree are safe."""
+    if plan.get('kind') == 'policy':
+        # the behaviour of the program is what the expectation is computed from: it stays as planned
+        T = plan.get('procs', {}).get('T')
+        if T is None or 'text' not in plan:
+            return None
+        if plan['code'] == 'ENOENT':
+            if not T.get('spawn_error'):
+                return None
+        elif T.get('exit') != plan['code'] or T.get('spawn_error'):
+            return None
+        for tag in ('T0', 'polluter-fail'):
+            if plan.get('context') in ('after_ignoring_neighbour', 'after_strict_neighbour') and tag == 'T0' and \
+                    tag not in plan['procs']:
+                return None
+            if plan.get('context') == 'after_ignoring_case' and tag == 'polluter-fail' and tag not in plan['procs']:
+                return None
+        return plan
     if plan.get('kind') != 'denotation':
         return plan
     plan.pop('prog', None)
